@@ -20,7 +20,8 @@ type c09Prog struct {
 	Arms     []int    `json:"arms"`     // case indices, in source order
 	Forms    []string `json:"forms"`    // per arm: bind | ignore | none
 	Default  bool     `json:"default"`
-	Context  string   `json:"context"` // fn | ifbranch | letrhs | lambda
+	Context  string   `json:"context"` // fn | ifbranch | letrhs | lambda | inmatch-default | inmatch-case
+	Unit     bool     `json:"unit"`    // arm bodies are statements (print the value) instead of values
 }
 
 func (p *c09Prog) caseName(i int) string { return fmt.Sprintf("%c%d", 'A'+i, p.Idx) }
@@ -42,24 +43,30 @@ func (p *c09Prog) source(standalone bool) string {
 		}
 	}
 	b.WriteString("\n")
+	val := func(e string) string {
+		if p.Unit {
+			return "frt.Printf1 \"%d\\n\" (" + e + ")"
+		}
+		return e
+	}
 	arms := func(ind string) string {
 		var b strings.Builder
 		for k, ci := range p.Arms {
 			switch p.Forms[k] {
 			case "bind":
 				if p.Payloads[ci] == "i" {
-					fmt.Fprintf(&b, "%s| %s x -> x + %d\n", ind, p.caseName(ci), 100+k)
+					fmt.Fprintf(&b, "%s| %s x -> %s\n", ind, p.caseName(ci), val(fmt.Sprintf("x + %d", 100+k)))
 				} else {
-					fmt.Fprintf(&b, "%s| %s s -> if s = \"\" then %d else %d\n", ind, p.caseName(ci), 100+k, 200+k)
+					fmt.Fprintf(&b, "%s| %s s -> %s\n", ind, p.caseName(ci), val(fmt.Sprintf("if s = \"\" then %d else %d", 100+k, 200+k)))
 				}
 			case "ignore":
-				fmt.Fprintf(&b, "%s| %s _ -> %d\n", ind, p.caseName(ci), 100+k)
+				fmt.Fprintf(&b, "%s| %s _ -> %s\n", ind, p.caseName(ci), val(fmt.Sprint(100+k)))
 			default:
-				fmt.Fprintf(&b, "%s| %s -> %d\n", ind, p.caseName(ci), 100+k)
+				fmt.Fprintf(&b, "%s| %s -> %s\n", ind, p.caseName(ci), val(fmt.Sprint(100+k)))
 			}
 		}
 		if p.Default {
-			fmt.Fprintf(&b, "%s| _ -> 7\n", ind)
+			fmt.Fprintf(&b, "%s| _ -> %s\n", ind, val("7"))
 		}
 		return b.String()
 	}
@@ -77,6 +84,18 @@ func (p *c09Prog) source(standalone bool) string {
 		// the last arm carries the closing parenthesis of the lambda
 		b.WriteString(strings.TrimRight(arms("    "), "\n") + ")\n")
 		fmt.Fprintf(&b, "\nlet f%d (u:U%d) =\n  g%d [u] |> slice.Head\n\n", p.Idx, p.Idx, p.Idx)
+	case "inmatch-default", "inmatch-case":
+		// the match is the last expression of an arm of an OUTER match, directly followed by the outer
+		// match's next arm (a default arm, or an ordinary one)
+		fmt.Fprintf(&b, "type W%d =\n  | P%d\n  | Q%d\n\n", p.Idx, p.Idx, p.Idx)
+		fmt.Fprintf(&b, "let g%d (u:U%d) (w:W%d) =\n  match w with\n  | P%d ->\n    match u with\n", p.Idx, p.Idx, p.Idx, p.Idx)
+		b.WriteString(arms("    "))
+		if p.Context == "inmatch-default" {
+			fmt.Fprintf(&b, "  | _ -> %s\n\n", val("9"))
+		} else {
+			fmt.Fprintf(&b, "  | Q%d -> %s\n\n", p.Idx, val("9"))
+		}
+		fmt.Fprintf(&b, "let f%d (u:U%d) =\n  g%d u P%d\n\n", p.Idx, p.Idx, p.Idx, p.Idx)
 	default:
 		fmt.Fprintf(&b, "let f%d (u:U%d) =\n  match u with\n", p.Idx, p.Idx)
 		b.WriteString(arms("  "))
@@ -232,7 +251,7 @@ func firstLine(s string) string {
 func c09Gen(c *Ctx, rng *Rng) []*c09Prog {
 	var progs []*c09Prog
 	variants := c.Pick(2, 12)
-	contexts := []string{"fn", "fn", "ifbranch", "letrhs", "lambda"}
+	contexts := []string{"fn", "fn", "ifbranch", "letrhs", "lambda", "inmatch-default", "inmatch-case"}
 	idx := 0
 	for n := 1; n <= 5; n++ {
 		for _, arms := range orderedSubsets(n) {
@@ -251,6 +270,9 @@ func c09Gen(c *Ctx, rng *Rng) []*c09Prog {
 						}
 					}
 					p.Context = contexts[rng.Intn(len(contexts))]
+					if (p.Context == "fn" || strings.HasPrefix(p.Context, "inmatch")) && rng.Chance(1, 3) {
+						p.Unit = true
+					}
 					progs = append(progs, p)
 				}
 			}
@@ -312,7 +334,8 @@ func runC09(c *Ctx) {
 	var accepted []*c09Prog
 	for i, p := range progs {
 		o := obs[i]
-		key := fmt.Sprintf("%v|%v|%v|%v|%s", p.Payloads, p.Arms, p.Forms, p.Default, p.Context)
+		key := fmt.Sprintf("%v|%v|%v|%v|%s|%v", p.Payloads, p.Arms, p.Forms, p.Default, p.Context, p.Unit)
+		c.Count(fmt.Sprintf("unit_arms=%v", p.Unit))
 		c.Eval(key, len(p.Payloads) >= 2)
 		c.Count(fmt.Sprintf("cases=%d", len(p.Payloads)))
 		c.Count("context=" + p.Context)
@@ -375,7 +398,11 @@ func c09RunAccepted(c *Ctx, ps []*c09Prog) {
 		for _, p := range ps[start:end] {
 			src.WriteString(p.source(false))
 			for i := range p.Payloads {
-				fmt.Fprintf(&mainb, "\tfmt.Println(%d, %d, f%d(%s))\n", p.Idx, i, p.Idx, p.goCtor(i))
+				if p.Unit {
+					fmt.Fprintf(&mainb, "\tfmt.Print(%d, \" \", %d, \" \")\n\tf%d(%s)\n", p.Idx, i, p.Idx, p.goCtor(i))
+				} else {
+					fmt.Fprintf(&mainb, "\tfmt.Println(%d, %d, f%d(%s))\n", p.Idx, i, p.Idx, p.goCtor(i))
+				}
 				disp := or.Ask("C09", fmt.Sprintf("(dispatch %s %v %s)", p.sexpArms(), p.Default, Sq(p.caseName(i))))
 				if disp == "NEVER" {
 					c.Violate("never", "model dispatch reaches the never-reached panic in an accepted program",
